@@ -204,6 +204,21 @@ func diff(orig, re *snapshot) []difference {
 				rsrcs := arrays(r.Deps)[in]
 				if len(osrcs) == len(rsrcs) && !equalStrings(osrcs, rsrcs) && equalStrings(sortedCopy(osrcs), sortedCopy(rsrcs)) {
 					perm = true
+					if len(osrcs) > 40 {
+						k, moved := 0, 0
+						for x := range osrcs {
+							if osrcs[x] != rsrcs[x] {
+								if moved == 0 {
+									k = x
+								}
+								moved++
+							}
+						}
+						lo, hi := imax(0, k-2), imin(len(osrcs), k+10)
+						add("array-input-order-differs", "graph.Instance.buildNodeGraphInstanceSchema (dependency order)",
+							"node %s (%s) input %q with %d connections: %d positions hold another source after reload, the first is position %d; saved order at positions %d..%d: %v, reloaded: %v", id, shortType(o.Type), in, len(osrcs), moved, k, lo, hi-1, osrcs[lo:hi], rsrcs[lo:hi])
+						continue
+					}
 					add("array-input-order-differs", "graph.Instance.buildNodeGraphInstanceSchema (dependency order)",
 						"node %s (%s) input %q with %d connections: saved order %v, reloaded order %v", id, shortType(o.Type), in, len(osrcs), osrcs, rsrcs)
 				}
